@@ -76,7 +76,7 @@ Proof.
   now rewrite (proj2 (Nat.eqb_eq _ _) Hl).
 Qed.
 
-Local Opaque cl_sync.
+Local Opaque client_apply calc_update calc_update_muts calc_upd w8 w16 w32 w64 hello_time.
 
 Lemma full_sync_restores_lemma : forall p s,
   st_err s = false -> cl_stuck (st_cl s) = false -> st_wire s = [] ->
@@ -90,13 +90,11 @@ Proof.
   intros p s He Hs Hw Ht Hl s'. subst s'.
   destruct s as [sv cl wire pend cur err sil rej syn np conn ip].
   destruct cl as [t q m stuck need errs].
-  simpl in He, Hs, Hw, Ht, Hl. subst err stuck wire.
-  unfold exec, step, do_sync_req, do_sync_serve, do_deliver. simpl.
-  rewrite cl_sync_ok by assumption. simpl.
-  unfold client_view. simpl. repeat split; reflexivity.
+  cbn in He, Hs, Hw, Ht, Hl. subst err stuck wire.
+  cbn -[cl_sync].
+  rewrite cl_sync_ok by (cbn; assumption).
+  cbn. repeat split; reflexivity.
 Qed.
-
-Local Transparent cl_sync.
 
 (* with a schema the synchronised entries of a fully synced mirror are the
    source's, for every tracked set *)
@@ -107,4 +105,204 @@ Proof.
   rewrite H. destruct (shallow c).
   - apply C10Proofs.list_bool_eqb_refl.
   - apply C10Proofs.list_N_eqb_refl.
+Qed.
+
+Local Transparent client_apply calc_update calc_update_muts calc_upd w8 w16 w32 w64 hello_time.
+
+(* ------------------------------------------------------------------ *)
+(* refutations: witnesses evaluated on the model (each one is replayed  *)
+(* on the real code by the corpus)                                      *)
+
+Lemma repeat_fix : forall p s X, exec p s X = s ->
+  forall n, exec p s (concat (repeat X n)) = s.
+Proof.
+  intros p s X H n. induction n as [|n IH]; [reflexivity|].
+  cbn [repeat concat]. now rewrite exec_app, H.
+Qed.
+
+Definition all4 : cfg := {| sync_schema := true; shallow := false; tracked := [0;1;2;3]%nat |}.
+Definition plain : pcfg := {| p_codec := all4; p_mut := false |}.
+Definition sn (t : list N) (q m : N) : snap := {| s_time := t; s_q := q; s_m := m |}.
+
+(* (R1) a reply overtaken by a push *)
+Definition r1_s0 := sn [0;0;0;0] 1 0.
+Definition r1_s1 := sn [1;0;0;0] 2 0.
+Definition r1_s2 := sn [1;1;0;0] 3 0.
+Definition r1_events : list ev := [Src r1_s1; Reply; Src r1_s2; Push; Deliver; Write; Deliver].
+
+Theorem reorder_stale_refuted_lemma :
+  exists (p : pcfg) (s0 s1 s2 : snap),
+    p_mut p = false /\ shallow (p_codec p) = false /\
+    cfg_wf (p_codec p) (length (s_time s0)) = true /\
+    chain_in_range s0 [s1; s2] = true /\ s_m s0 = 0 /\
+    let st := exec p (init p s0) [Src s1; Reply; Src s2; Push; Deliver; Write; Deliver] in
+    quiescent st = true /\ st_err st = false /\ cl_stuck (st_cl st) = false /\
+    st_rejpush st = true /\
+    sv_last (st_sv st) = mk_data (p_codec p) s2 /\
+    client_view st = (mirror (p_codec p) s1, s_q s1, s_m s1) /\
+    mirror_ok (p_codec p) (s_time s2) (cl_t (st_cl st)) = false /\
+    forall n, exec p st (concat (repeat [Push; Settle] n)) = st.
+Proof.
+  exists plain, r1_s0, r1_s1, r1_s2.
+  repeat split; try (vm_compute; reflexivity).
+  intros n. apply repeat_fix. vm_compute. reflexivity.
+Qed.
+
+(* (R2) in-order delivery, plain configuration: a push whose diff has no
+   indexes (queue tick moved, no tracked tick did) is not sent, yet
+   lastPushData advances: every later push is rejected *)
+Definition r2_a := sn [1;0;0;0] 2 0.
+Definition r2_b := sn [1;0;0;0] 3 0.
+Definition r2_c := sn [1;1;0;0] 4 0.
+
+Theorem inorder_converges_refuted_lemma :
+  exists (p : pcfg) (s0 a b c : snap),
+    p_mut p = false /\ shallow (p_codec p) = false /\
+    cfg_wf (p_codec p) (length (s_time s0)) = true /\
+    chain_in_range s0 [a; b; c] = true /\ s_m s0 = 0 /\
+    let st := exec p (init p s0)
+                [Src a; Push; Settle; Src b; Push; Settle; Src c; Push; Settle] in
+    quiescent st = true /\ st_err st = false /\ cl_stuck (st_cl st) = false /\
+    st_silent st = true /\ st_rejpush st = true /\
+    mirror_ok (p_codec p) (s_time c) (cl_t (st_cl st)) = false /\
+    forall n, exec p st (concat (repeat [Push; Settle] n)) = st.
+Proof.
+  exists plain, r1_s0, r2_a, r2_b, r2_c.
+  repeat split; try (vm_compute; reflexivity).
+  intros n. apply repeat_fix. vm_compute. reflexivity.
+Qed.
+
+(* (R3) a source with history: the placeholder dataLatest of NewServer is
+   pushed by the first idle ticker run and replaces lastPushData *)
+Definition r3_s0 := sn [1;0;0;0] 2 0.
+Definition r3_a := sn [1;1;0;0] 3 0.
+
+Theorem initial_data_push_refuted_lemma :
+  exists (p : pcfg) (s0 a : snap),
+    p_mut p = false /\ shallow (p_codec p) = false /\
+    cfg_wf (p_codec p) (length (s_time s0)) = true /\
+    chain_in_range s0 [a] = true /\ s_m s0 = 0 /\
+    let st := exec p (init p s0) [Push; Settle; Src a; Push; Settle] in
+    quiescent st = true /\ st_err st = false /\
+    st_initpush st = true /\ st_rejpush st = true /\
+    mirror_ok (p_codec p) (s_time a) (cl_t (st_cl st)) = false /\
+    forall n, exec p st (concat (repeat [Push; Settle] n)) = st.
+Proof.
+  exists plain, r3_s0, r3_a.
+  repeat split; try (vm_compute; reflexivity).
+  intros n. apply repeat_fix. vm_compute. reflexivity.
+Qed.
+
+(* (R4) per-mutation sync: a rejected mutations push calls Sync() from the
+   blocking read loop: the client is stuck, in-order delivery *)
+Definition mutp : pcfg := {| p_codec := all4; p_mut := true |}.
+
+Theorem mutations_push_blocks_refuted_lemma :
+  exists (p : pcfg) (s0 a : snap),
+    p_mut p = true /\ shallow (p_codec p) = false /\
+    cfg_wf (p_codec p) (length (s_time s0)) = true /\
+    chain_in_range s0 [a] = true /\ s_m s0 = 0 /\
+    let st := exec p (init p s0) [Push; Settle; Src a; Push; Settle] in
+    st_err st = false /\ cl_stuck (st_cl st) = true /\
+    mirror_ok (p_codec p) (s_time a) (cl_t (st_cl st)) = false /\
+    forall es, st_cl (exec p st es) = st_cl st.
+Proof.
+  exists mutp, r3_s0, r3_a.
+  repeat split; try (vm_compute; reflexivity).
+  intros es. apply stuck_forever_lemma. vm_compute. reflexivity.
+Qed.
+
+(* (R5) per-mutation sync: dataQueue is never flushed; from the third export
+   on the chain restarts below lastPushData, the negative deltas wrap to
+   2^32 / 2^16 and the mod-256 checksum accepts them *)
+Definition r5_a := sn [1;0;0;0] 2 0.
+Definition r5_b := sn [1;1;0;0] 3 0.
+Definition r5_c := sn [1;1;1;0] 4 0.
+
+Theorem mutation_queue_refuted_lemma :
+  exists (p : pcfg) (s0 a b c : snap),
+    p_mut p = true /\ shallow (p_codec p) = false /\
+    cfg_wf (p_codec p) (length (s_time s0)) = true /\
+    chain_in_range s0 [a; b; c] = true /\ s_m s0 = 0 /\
+    let st := exec p (init p s0)
+                [Src a; Push; Settle; Src b; Push; Settle; Src c; Push; Settle] in
+    quiescent st = true /\ st_err st = false /\ cl_stuck (st_cl st) = false /\
+    st_rejpush st = false /\
+    activity_ok (p_codec p) (s_time c) (cl_t (st_cl st)) = true /\
+    ticks_ok (p_codec p) (s_time c) (cl_t (st_cl st)) = false /\
+    cl_t (st_cl st) = [1; 1 + 4294967296; 1; 0] /\ cl_q (st_cl st) = 4 + 65536.
+Proof.
+  exists mutp, r1_s0, r5_a, r5_b, r5_c.
+  repeat split; vm_compute; reflexivity.
+Qed.
+
+(* (R6) a full Sync with a partial tracked set: RemoteSync returns the
+   unfiltered time, the client's checksum then covers untracked states and
+   every later push is rejected *)
+Definition part4 : cfg := {| sync_schema := true; shallow := false; tracked := [0;1]%nat |}.
+Definition partp : pcfg := {| p_codec := part4; p_mut := false |}.
+Definition r6_a := sn [1;0;1;0] 3 0.
+Definition r6_b := sn [1;1;1;0] 4 0.
+
+Theorem full_sync_partial_refuted_lemma :
+  exists (p : pcfg) (s0 a b : snap),
+    p_mut p = false /\ shallow (p_codec p) = false /\
+    cfg_wf (p_codec p) (length (s_time s0)) = true /\
+    chain_in_range s0 [a; b] = true /\ s_m s0 = 0 /\
+    let st1 := exec p (init p s0) [Src a; SyncReq; Settle] in
+    let st := exec p st1 [Src b; Push; Settle] in
+    mirror_ok (p_codec p) (s_time a) (cl_t (st_cl st1)) = true /\
+    cl_t (st_cl st1) <> mirror (p_codec p) a /\
+    quiescent st = true /\ st_err st = false /\ st_rejpush st = true /\
+    mirror_ok (p_codec p) (s_time b) (cl_t (st_cl st)) = false /\
+    forall n, exec p st (concat (repeat [Push; Settle] n)) = st.
+Proof.
+  exists partp, r1_s0, r6_a, r6_b.
+  repeat split; try (vm_compute; reflexivity).
+  - vm_compute. discriminate.
+  - intros n. apply repeat_fix. vm_compute. reflexivity.
+Qed.
+
+(* (R7) reconnect on a source whose MachineTick is not 0: RemoteHello keeps
+   the machTick of the old lastPushData, the client restarts from 0 *)
+Definition r7_s0 := sn [0;0;0;0] 1 1.
+Definition r7_a := sn [1;0;0;0] 2 1.
+Definition r7_b := sn [1;1;0;0] 3 1.
+
+Theorem reconnect_machtick_refuted_lemma :
+  exists (p : pcfg) (s0 a b : snap),
+    p_mut p = false /\ shallow (p_codec p) = false /\
+    cfg_wf (p_codec p) (length (s_time s0)) = true /\
+    chain_in_range s0 [a; b] = true /\ s_m s0 = 1 /\
+    let st1 := exec p (init p s0) [Src a; Push; Settle] in
+    let st := exec p st1 [Hello; Src b; Push; Settle] in
+    mirror_ok (p_codec p) (s_time a) (cl_t (st_cl st1)) = true /\
+    quiescent st = true /\ st_err st = false /\ st_rejpush st = true /\
+    mirror_ok (p_codec p) (s_time b) (cl_t (st_cl st)) = false /\
+    forall n, exec p st (concat (repeat [Push; Settle] n)) = st.
+Proof.
+  exists plain, r7_s0, r7_a, r7_b.
+  repeat split; try (vm_compute; reflexivity).
+  intros n. apply repeat_fix. vm_compute. reflexivity.
+Qed.
+
+(* (R8) shallow clocks: every push is rejected (C10 shallow_accept_refuted),
+   the push path ignores it *)
+Definition shp : pcfg :=
+  {| p_codec := {| sync_schema := true; shallow := true; tracked := [0;1;2;3]%nat |};
+     p_mut := false |}.
+
+Theorem shallow_push_stale_refuted_lemma :
+  exists (p : pcfg) (s0 a : snap),
+    p_mut p = false /\ shallow (p_codec p) = true /\
+    cfg_wf (p_codec p) (length (s_time s0)) = true /\
+    chain_in_range s0 [a] = true /\ s_m s0 = 0 /\
+    let st := exec p (init p s0) [Src a; Push; Settle] in
+    quiescent st = true /\ st_err st = false /\ st_rejpush st = true /\
+    mirror_ok (p_codec p) (s_time a) (cl_t (st_cl st)) = false /\
+    forall n, exec p st (concat (repeat [Push; Settle] n)) = st.
+Proof.
+  exists shp, r1_s0, r1_s1.
+  repeat split; try (vm_compute; reflexivity).
+  intros n. apply repeat_fix. vm_compute. reflexivity.
 Qed.
